@@ -109,4 +109,43 @@ ADD = Contract(
 )
 ADD.enum = enum_add
 
-CONTRACTS = [ADD]
+DISTINCT_IN_RANGE = ("forall((t,u), implies(0 <= t and t < u and u < len(herald_modes), at(herald_modes,t) != at(herald_modes,u))) and "
+                     "forall(t, implies(0 <= t and t < len(herald_modes), 0 <= at(herald_modes,t) and at(herald_modes,t) < len(state)))")
+
+REMOVE = Contract(
+    target=f"{F}:remove_heralds_from_state",
+    types={"state": ["list[int]", STATE], "herald_modes": "list[int]"},
+    requires=[DISTINCT_IN_RANGE],
+    modifies=[],
+    loops={"to_remove": Loop(
+        # g: position in new_s -> original index (strictly increasing); ginv: original index -> position, for indices not removed
+        ghost={"g": ("lam(t, t)", "lam(t, ite(t < m, app(g, t), app(g, t + 1)))"),
+               "ginv": ("lam(j, j)", "lam(j, ite(j < m, app(ginv, j), app(ginv, j) - 1))")},
+        invariant=[
+            "len(new_s) == len(state) - _k",
+            "implies(_k >= 1, at(_it, _k - 1) <= len(state) - _k)",
+            # below the smallest removed index nothing moved
+            "forall(t, implies(0 <= t and t < (at(_it, _k - 1) if _k >= 1 else len(state)), app(g, t) == t and app(ginv, t) == t))",
+            "forall(t, implies(0 <= t and t < len(new_s), at(new_s, t) == at(state, app(g, t)) and 0 <= app(g, t) and app(g, t) < len(state)))",
+            "forall((t,u), implies(0 <= t and t < u and u < len(new_s), app(g, t) < app(g, u)))",
+            # the indices already removed are exactly _it[0.._k): g avoids them, every other index is hit
+            "forall((t,r), implies(0 <= t and t < len(new_s) and 0 <= r and r < _k, app(g, t) != at(_it, r)))",
+            "forall(j, implies(0 <= j and j < len(state) and forall(r, implies(0 <= r and r < _k, at(_it, r) != j)), "
+            "0 <= app(ginv, j) and app(ginv, j) < len(new_s) and app(g, app(ginv, j)) == j))",
+        ])},
+    ensures={
+        "length": "len(result) == len(state) - len(herald_modes)",
+        # order-preserving deletion: result[t] = state[g(t)] with g strictly increasing onto the non-herald indices
+        "content": "forall(t, implies(0 <= t and t < len(result), at(result, t) == at(state, app(g, t)) and not (app(g, t) in herald_modes)))",
+        "order": "forall((t,u), implies(0 <= t and t < u and u < len(result), app(g, t) < app(g, u)))",
+        "complete": "forall(j, implies(0 <= j and j < len(state) and not (j in herald_modes), 0 <= app(ginv, j) and app(ginv, j) < len(result) and app(g, app(ginv, j)) == j))",
+        "fresh": "fresh_ref(result)",
+        "argument_unchanged": "state == old(state)",
+    },
+    raises={},
+    replay=replay_remove,
+    props=["C18", "C07", "C03"],
+)
+REMOVE.enum = enum_remove
+
+CONTRACTS = [ADD, REMOVE]
